@@ -70,6 +70,11 @@ class IrFeeder : public mp::NLFeeder<IrFeeder, const Ex*> {
   const Model& m;
   WriterOpts w;
   IrFeeder(const Model& mm, const WriterOpts& ww) : m(mm), w(ww) {}
+  // optional names: columns; rows = algebraic + logical constraints, then objectives
+  const std::vector<std::string>* colnames = nullptr;
+  const std::vector<std::string>* rownames = nullptr;
+  template <class W> void FeedColNames(W& wrt) { if (colnames && wrt) for (auto& n : *colnames) wrt << n.c_str(); }
+  template <class W> void FeedRowAndObjNames(W& wrt) { if (rownames && wrt) for (auto& n : *rownames) wrt << n.c_str(); }
 
   mp::NLHeader Header() { return make_header(m, w); }
   bool WantNLComments() const { return w.comments; }
@@ -322,6 +327,21 @@ Json generate(const std::string& tier, uint64_t seed, uint64_t index) {
   w.set("colsizes", (long)(rng.chance(0.6) ? 1 : rng.chance(0.6) ? 2 : 0));
   sc.set("writer", w);
   sc.set("read_flags", (long)rng.below(2));
+  // names (.col: variables; .row: constraints, logical constraints, objectives), given for none, one or both files
+  auto gen_names = [&](const char* base, size_t n) {
+    Json a = Json::array();
+    for (size_t i = 0; i < n; ++i) {
+      std::string nm = std::string(base) + "[" + std::to_string(i + 1);
+      switch (rng.below(8)) { case 0: nm += ",'a b'"; break; case 1: nm += ",\"q\""; break; case 2: nm += ",'Z\xc3\xbcrich'"; break; case 3: nm += ",'x\\y'"; break; default: break; }
+      a.push(nm + "]");
+    }
+    return a;
+  };
+  int nm_mode = (int)rng.below(10);   // 0-3 none, 4-7 both, 8 columns only, 9 rows only
+  if (nm_mode >= 4 && nm_mode != 9) sc.set("colnames", gen_names("x", (size_t)m.nvars));
+  if (nm_mode >= 4 && nm_mode != 8) sc.set("rownames", gen_names("c", m.cons.size() + m.lcons.size() + m.objs.size()));
+  // history: the same stub was written before, by a model that had names
+  sc.set("stub_used_before", rng.chance(0.35));
   return sc;
 }
 
@@ -363,16 +383,32 @@ sim::RunResult run(const Json& sc) {
   st.set("model.vars", m.nvars); st.set("model.cons", (long)m.cons.size()); st.set("model.lcons", (long)m.lcons.size());
   st.set("model.objs", (long)m.objs.size()); st.set("model.cexprs", (long)m.cexprs.size()); st.set("model.sufs", (long)m.sufs.size());
 
+  std::vector<std::string> colnames, rownames;
+  const bool have_col = sc.has("colnames"), have_row = sc.has("rownames");
+  for (auto& e : sc["colnames"].arr()) colnames.push_back(e.as_str());
+  for (auto& e : sc["rownames"].arr()) rownames.push_back(e.as_str());
+  if (have_col || have_row) bump(st, "names.given");
   for (int pass = 0; pass < 2; ++pass) {
     w.binary = pass == 1;
     const char* enc = w.binary ? "binary" : "text";
     const std::string base = sim::scratch_dir() + (w.binary ? "mb" : "mt");
+    if (sc["stub_used_before"].as_bool()) {   // history: an earlier model with (more) names went to the same stub
+      std::vector<std::string> oc, orow;
+      for (int j = 0; j < m.nvars + 2; ++j) oc.push_back("old_x" + std::to_string(j));
+      for (size_t i = 0; i < m.cons.size() + m.lcons.size() + m.objs.size() + 2; ++i) orow.push_back("old_c" + std::to_string(i));
+      sim_session(nofaults, 500000, [&] {
+        try { IrFeeder f0(m, w); f0.colnames = &oc; f0.rownames = &orow; QuietUtils u0; mp::WriteNLFile(base, f0, u0); } catch (const std::exception&) {}
+      });
+      bump(st, "history.stub_used_before");
+    }
     // ---------------- writer party
     mp::WriteNLResult wres{NLW2_WriteNL_Unset, ""};
     std::string wexc;
     SimRun sw = sim_session(nofaults, 500000, [&] {
       try {
         IrFeeder feeder(m, w);
+        if (have_col) feeder.colnames = &colnames;
+        if (have_row) feeder.rownames = &rownames;
         QuietUtils utils;
         wres = mp::WriteNLFile(base, feeder, utils);
       } catch (const std::exception& e) { wexc = e.what(); }
@@ -399,7 +435,11 @@ sim::RunResult run(const Json& sc) {
     ok[pass] = true;
     // ---------------- refinement: reader history == feed history
     Expect ex(m);
-    ex.build(make_header(m, w), w);
+    mp::NLHeader hx = make_header(m, w);
+    // the writer reports the longest name it wrote in the header
+    if (have_col) for (auto& n : colnames) hx.max_var_name_len = std::max(hx.max_var_name_len, (int)n.size());
+    if (have_row) for (auto& n : rownames) hx.max_con_name_len = std::max(hx.max_con_name_len, (int)n.size());
+    ex.build(hx, w);
     for (auto& kv : ex.items) {
       auto it = out.items.find(kv.first);
       if (it == out.items.end()) { v.set("ITEM_MISSING", item_kind(kv.first) + "/" + enc, "fed item " + kv.first + " = [" + kv.second.substr(0, 200) + "] never notified by the reader (" + enc + ")"); break; }
@@ -413,6 +453,28 @@ sim::RunResult run(const Json& sc) {
         v.set("ITEM_MISMATCH", cause + "/" + enc, std::string(enc) + " item " + kv.first + ": fed [..." + kv.second.substr(from, 120) + "] read [..." +
               it->second.substr(from, 120) + "]");
         break;
+      }
+    }
+    // ---------------- names: what the library's own name reader (mp::NameProvider) finds next to the .nl file
+    {
+      struct NF { const char* ext; bool given; const std::vector<std::string>* want; } nf[2] = {{".col", have_col, &colnames}, {".row", have_row, &rownames}};
+      for (auto& f : nf) {
+        std::string content;
+        bool exists = sim::read_file(base + f.ext, content);
+        if (!f.given || f.want->empty()) {
+          if (exists && !content.empty()) v.set("STALE_NAMES", std::string(f.ext + 1) + "/" + enc, std::string("no names were fed for ") + f.ext + " but the file exists after WriteNLFile: '" + content.substr(0, 60) + "'");
+          continue;
+        }
+        if (!exists) { v.set("NAMES_MISSING", std::string(f.ext + 1) + "/" + enc, std::string(f.ext) + " not written although names were fed"); continue; }
+        try {
+          mp::NameProvider np(base + f.ext, "_gen", f.want->size());
+          if (np.number_read() != f.want->size()) v.set("NAMES_MISMATCH", std::string(f.ext + 1) + "-count/" + enc, std::string(f.ext) + ": fed " + std::to_string(f.want->size()) + " names, read " + std::to_string(np.number_read()));
+          else for (size_t i = 0; i < f.want->size(); ++i) {
+            fmt::StringRef got = np.name(i);
+            if (std::string(got.data(), got.size()) != (*f.want)[i]) { v.set("NAMES_MISMATCH", std::string(f.ext + 1) + "/" + enc, std::string(f.ext) + " name " + std::to_string(i) + ": fed '" + (*f.want)[i] + "' read '" + std::string(got.data(), got.size()) + "'"); break; }
+          }
+          bump(st, "names.compared");
+        } catch (const std::exception& e) { v.set("NAMES_MISMATCH", std::string(f.ext + 1) + "-unreadable/" + enc, std::string(f.ext) + " written by NLW2 cannot be read back: " + e.what()); }
       }
     }
     for (auto& kv : out.items)
